@@ -342,12 +342,19 @@ class Tokenizer(object):
                 except:
                     token = token.decode('string_escape')
             else:
+                nonAscii = any(lambda c: ord(c) > 127, token)
                 token = codecs.getencoder('utf8')(token)[0]
                 token = codecs.getdecoder('unicode_escape')(token)[0]
-                try:
-                    token = token.encode('iso-8859-1').decode()
-                except: # Prevent issue with tokens like '"\\x80"'.
-                    pass
+                if nonAscii:
+                    # Non-ASCII characters went through the escape decoder
+                    # as UTF-8 bytes, one character per byte: put them
+                    # back together.  Not needed (and wrong) for an ASCII
+                    # token, where characters above 127 can only come from
+                    # escapes: '"\\xc3\\xa9"' is two characters, not one.
+                    try:
+                        token = token.encode('iso-8859-1').decode()
+                    except: # Prevent issue with tokens like '"\\x80"'.
+                        pass
         return token
 
     def _insideBrackets(self, lexer):
